@@ -7,7 +7,7 @@ RUNTIME_TB = ["R-SUM's specification table in lexlint/rules_runtime.py (the cont
 GEN_ALL = {"P1", "P2", "P3", "P4", "P5", "P6", "P7", "P8", "P9", "R-SAVED", "R-BSEARCH", "R-NAMES",
            "R-WHO", "R-PANIC", "R-CTOR", "R-SUGAR"}
 FLOORS = {"ops": 700, "munch": 240, "rulesets": 70, "rctx": 190, "eoi": 40, "classes": 330, "builtins": 110,
-          "prec": 265, "actions": 7, "modules": 10, "illformed": 50, "mix": 150}
+          "prec": 265, "actions": 7, "modules": 10, "illformed": 110, "mix": 150}
 
 
 def c01(ctx, env):
@@ -82,7 +82,7 @@ def c11(ctx, env):
 
 
 def c12(ctx, env):
-    env.src(ctx, ["R-DET", "R-WL", "R-THOMPSON"])
+    env.src(ctx, ["R-DET", "R-WL", "R-THOMPSON", "R-SUBSET"])
     env.replay_gen(ctx, {"R-NAMES"})
     env.witnesses(ctx, ["modules", "rctx", "builtins", "rulesets", "classes", "munch"],
                   {"COMPILE", "R-NAMES"}, FLOORS)
@@ -235,9 +235,13 @@ PROPS = {
     "C12": {
         "run": c12, "level": "other",
         "title": "Expansion terminates, is deterministic, output compiles",
-        "technique": "type rule (no RandomState), worklist-progress idioms, compile-pass witnesses, naming rule",
+        "technique": "type rule (no RandomState), worklist-progress idioms, pairing rule of the subset "
+                     "construction (registered => queued and emitted), compile-pass witnesses, naming rule",
         "explanation": "R-DET: no nondeterministically seeded container or API in crate lexgen; R-WL: "
-                       "the three worklists match a progress idiom; compile-pass of witnesses with "
+                       "the three worklists match a progress idiom; R-SUBSET: every DFA state created is "
+                       "registered, queued and becomes the target of a transition that is really added "
+                       "(an orphan state trips update_backtracks' final assertion and the expansion "
+                       "panics); compile-pass of witnesses with "
                        "contexts of every shape, repeated bracket characters, large built-ins, "
                        "several rule sets and two table-using lexers in one module; R-NAMES on every "
                        "expansion. A witness whose expansion exceeds the watchdog is reported.",
@@ -276,7 +280,8 @@ PROPS = {
         "title": "Ill-formed definitions rejected",
         "technique": "check-presence rules (failure path diverges) + compile-fail witnesses with compiling twins",
         "explanation": "R-CHK: each rejection check exists on the resolved API and its failure path "
-                       "diverges or returns a compile error; 28 compile-fail witnesses each with a "
+                       "diverges or returns a compile error; 60 compile-fail witnesses (28 static-rule violations, "
+                       "32 token-level syntax slips at every place where a regex may stand) each with a "
                        "compiling twin differing only in the offending line.",
     },
     "C18": {
